@@ -315,6 +315,11 @@ class StackPartition(Concat):
     def _lower(self):
         return
 
+    def _simplify_up(self, parent, dependents):
+        # Already lowered: the projection rule of the abstract Concat rebuilds
+        # the expression from parameters that the lowered form does not have
+        return
+
 
 class StackPartitionInterleaved(StackPartition):
     def _divisions(self):
